@@ -10,6 +10,7 @@ def _get_path(c):
     c.self_obj(("self", "smpl_extract.util.fat:FileAllocationTable",
                 {"size": "int", "sector_links": LINKS, "parent_stream": ("const", None)}))
     c.param("starting_sector", "int")
+    c.returns(("list", "int"))
     c.value_class("SectorLink", {"next": "int", "end": "bool"})
     # type invariants of the inputs: link words and start sectors are parsed as unsigned integers
     c.requires("starting_sector >= 0", "start-unsigned")
